@@ -428,6 +428,7 @@ class Merge(Expr):
                     right_index,
                     self.suffixes,
                     self.indicator,
+                    self.broadcast_side,
                 )
 
         if (shuffle_left_on or shuffle_right_on) and (
@@ -703,6 +704,7 @@ class BroadcastJoin(Merge, PartitionsFiltered):
         "right_index",
         "suffixes",
         "indicator",
+        "_broadcast_side",
         "_partitions",
     ]
     _defaults = {
@@ -713,8 +715,17 @@ class BroadcastJoin(Merge, PartitionsFiltered):
         "right_index": None,
         "suffixes": ("_x", "_y"),
         "indicator": False,
+        "_broadcast_side": None,
         "_partitions": None,
     }
+
+    @functools.cached_property
+    def broadcast_side(self):
+        # Decided by the Merge that was lowered: its inputs may have been
+        # repartitioned since, which must not flip the sides
+        if self.operand("_broadcast_side") is not None:
+            return self.operand("_broadcast_side")
+        return super().broadcast_side
 
     def _divisions(self):
         # Every output partition is the concatenation of the merges with each
